@@ -32,7 +32,7 @@ PANIC_NOTES = [
      "the only lookup-path caller (TilesConvertReader::get_tile_data) returns Ok(None) for coordinates outside the 2^z grid before flipping; the other caller is the bulk stream, which C19 excludes",
      [{"kind": "callers_are", "callers": ["<versatiles_container::container::converter::TilesConvertReader as versatiles_core::types::tiles_reader::TilesReaderTrait>::get_tile_data",
                                           "<versatiles_container::container::converter::TilesConvertReader as versatiles_core::types::tiles_reader::TilesReaderTrait>::get_bbox_tile_stream"]},
-      {"kind": "fn_has_guard", "fn": "<versatiles_container::container::converter::TilesConvertReader as versatiles_core::types::tiles_reader::TilesReaderTrait>::get_tile_data", "mentions": ["coord.x", "coord.y", "size"]}]),
+      {"kind": "fn_has_guard", "fn": "<versatiles_container::container::converter::TilesConvertReader as versatiles_core::types::tiles_reader::TilesReaderTrait>::get_tile_data", "mentions": [".x", ".y"]}]),
     ("GeomType as core::convert::From<&versatiles_geometry::geo::geometry::Geometry>>::from", "panic", "panic",
      "only reached from VectorTileFeature::from_geometry via from_debug's generated features, which are Multi* geometries built from constant glyph data; decoders never construct a Geometry and convert it back", None),
     # ---- caller-supplied paths (environment, not decoder input)
